@@ -297,6 +297,8 @@ func mercObservation(v int, ao any) []byte {
 
 // ---------------------------------------------------------------- plugins through the real factories
 
+var mercScratchOn, mercScratchOff = make([]byte, 0, 256), make([]byte, 0, 256)
+
 func mercPlugin(v int, cfg, cc map[string]any) (ocr3types.MercuryPlugin, *mercRefCodec, error) {
 	ctx := context.Background()
 	rc := &mercRefCodec{maxLen: jInt(cc["maxLen"]), pad: jInt(cc["pad"]), empty: jBool(cc["empty"]), fail: jBool(cc["fail"])}
@@ -314,6 +316,11 @@ func mercPlugin(v int, cfg, cc map[string]any) (ocr3types.MercuryPlugin, *mercRe
 	if cfg["n"] != nil {
 		n = jInt(cfg["n"])
 	}
+	// the host keeps ONE scratch buffer per kind of configuration and reuses it for every plugin it builds: a plugin
+	// (or a decoder) that keeps a reference into the bytes it was configured with sees the next configuration
+	mercScratchOn = append(mercScratchOn[:0], onchain...)
+	mercScratchOff = append(mercScratchOff[:0], offchain...)
+	onchain, offchain = mercScratchOn, mercScratchOff
 	pc := ocr3types.MercuryPluginConfig{N: n, F: jInt(cfg["f"]), OnchainConfig: onchain, OffchainConfig: offchain}
 	lggr := logger.Nop()
 	var p ocr3types.MercuryPlugin
